@@ -138,6 +138,14 @@ def gen_tree(rng, depth_above=None, small=False):
         t.file(root + b'real/data.txt', b'data next to real/deep').file(root + b'real/deep/own.txt', b'own')
         t.link(root + b'real/deep/rel.lnk', b'../data.txt').link(root + b'alias', b'real/deep')
         names += [b'alias/own.txt', b'alias/rel.lnk', b'real/deep/rel.lnk']
+    # paths longer than any fixed cut a handler or a logger may apply to a request target (100, 128, 255, 256, 512 bytes), made of
+    # two- and three-byte characters, in three alignments: for every cut one of them has a character straddling it
+    if rng.chance(1, 2):
+        seg2, seg3 = '\u043a\u0430\u0442\u0430\u043b\u043e\u0433-\u0441-\u0438\u043c\u0435\u043d\u0435\u043c'.encode(), '\u76ee\u5f55\u540d\u79f0\u5f88\u957f'.encode()
+        for shift in (b'', b'a', b'ab'):
+            p = b'/'.join([shift + seg2, seg2 * 2, seg3 * 3, seg2 + seg3, seg3 * 5, seg2 * 3]) + b'/' + '\u0441\u0442\u0440\u0430\u043d\u0438\u0446\u0430.txt'.encode()
+            t.file(root + p, b'long path ' + shift)
+            names.append(p)
     t.names = names
     return t
 
